@@ -525,6 +525,49 @@ def sec_missing(rep, tier):
                     rep.check(f"C08/missing/weights/{kind}/nf={nf}/ihq={ihq}/pto_evol={pto_evol}", case, sy, [sy.x > 0, sy.x < 1, sy.Q2 > 0] + sy.mass_pre())
 
 
+def sec_weights(rep, tier):
+    """Weight correspondence for EVERY (nf, heavy flavour above nf) -- also the non-adjacent ones
+    (bottom or top with nf = 3) that the limit sections do not enumerate: per channel the asymptotic
+    kernels of generate_heavy_asy / generate_intrinsic_asy carry exactly the parton weights of the
+    massive kernels of heavy.kernels.generate / intrinsic.kernels.generate."""
+    from yadism.coefficient_functions import heavy, intrinsic
+    from yadism.coefficient_functions.asy import kernels as asyk
+
+    sy = H.Sy()
+
+    def wkey(partons):
+        return repr(sorted((pid, repr(w)) for pid, w in partons.items()))
+
+    for process in ("NC", "CC"):
+        for kind in ("F2", "FL", "F3"):
+            for nf in (3, 4, 5):
+                for ihq in range(nf + 1, 7):
+                    rep.cases += 1
+
+                    def case(sy, process=process, kind=kind, nf=nf, ihq=ihq):
+                        cfg = _cfg(sy, process, 2)
+                        esf = H.FakeESF(sy.x, sy.Q2, H.obs_name(kind, HQ_NAME[ihq]), cfg)
+                        out = []
+                        with rebind(*_binds(sy)):
+                            for fam, gen_m, gen_a in (("heavy", lambda: heavy.kernels.generate(esf, nf, ihq), lambda: asyk.generate_heavy_asy(esf, nf, 2, ihq)), ("intrinsic", lambda: intrinsic.kernels.generate(esf, ihq), lambda: asyk.generate_intrinsic_asy(esf, nf, 2, ihq))):
+                                try:
+                                    mk, ak = gen_m(), gen_a()
+                                except NotImplementedError:
+                                    out.append((f"{fam}: explicitly unavailable", True, True))
+                                    continue
+                                minus = ("Sminus", "Rminus")  # weight differences that do not contribute asymptotically
+                                m_keys = {wkey(k.partons): type(k.coeff).__name__ for k in mk if type(k.coeff).__name__ not in minus}
+                                a_keys = {wkey(k.partons): type(k.coeff).__name__ for k in ak}
+                                for key, nm in sorted(a_keys.items(), key=lambda t: t[1]):
+                                    out.append((f"{fam}: the weights of asymptotic kernel {nm} are those of a massive kernel", key in m_keys, True))
+                                if ak:
+                                    for key, nm in sorted(m_keys.items(), key=lambda t: t[1]):
+                                        out.append((f"{fam}: the weights of massive kernel {nm} are carried by an asymptotic kernel", key in a_keys, True))
+                        return out
+
+                    rep.check(f"C08/weights/{process}/{kind}/nf={nf}/ihq={ihq}", case, sy, [sy.x > 0, sy.x < 1, sy.Q2 > 0] + sy.mass_pre())
+
+
 def sec_selfcheck(rep):
     """Canaries for the limit engine: known limits must come out, wrong ones must not, and what
     the engine cannot decide must be OutOfReach (never a value)."""
@@ -583,7 +626,7 @@ def _any_worker(sub, tagged):
 
 
 def run(rep, tier, seed, only=None):
-    secs = {"heavy": lambda: sec_heavy(rep, tier), "intrinsic": lambda: sec_intrinsic(rep, tier), "nnlo": lambda: sec_heavy_nnlo(rep, tier), "missing": lambda: sec_missing(rep, tier), "selfcheck": lambda: sec_selfcheck(rep)}
+    secs = {"heavy": lambda: sec_heavy(rep, tier), "intrinsic": lambda: sec_intrinsic(rep, tier), "nnlo": lambda: sec_heavy_nnlo(rep, tier), "missing": lambda: sec_missing(rep, tier), "weights": lambda: sec_weights(rep, tier), "schemedispatch": lambda: H.scheme_families(rep, tier), "selfcheck": lambda: sec_selfcheck(rep)}
     # the long O(a_s^2) items run first and share the pool with the short ones
     rep.extra["_gather"] = [] if rep.replay_target is None else None
     for name, f in secs.items():
